@@ -35,6 +35,10 @@ impl Vertex {
     /// Above this amplification of the rounding errors, the intersection of the three planes
     /// of a new vertex is no longer trusted to lie on the edge it was created on.
     const MAX_ERROR_FACTOR: f64 = 1e6;
+    /// Above this (squared) ratio between the estimated displacement of a vertex under the
+    /// snapping of the generators and its distance to the generator, the first order estimate
+    /// of that displacement is no longer trusted.
+    const MAX_SNAP_FRACTION_2: f64 = 1e-4;
 
     fn from_dual(
         i: usize,
@@ -546,6 +550,14 @@ impl ConvexCell<WithoutFaces> {
             // The location of a vertex on (nearly) linearly dependent planes is not known: it
             // was put somewhere on the edge it was created on. Only the exact predicate can
             // decide on which side of a plane it lies consistently with its neighbours.
+            return 0.;
+        }
+        if vertex.snap_error * vertex.snap_error > Vertex::MAX_SNAP_FRACTION_2 * vertex.radius2 {
+            // The bound on the displacement of a vertex under the snapping of the generators is
+            // a first order estimate. Once it is no longer small compared to the distance of
+            // the vertex itself (nearly collinear generators whose mutual offsets are below the
+            // resolution of the integer grid: snapping rotates the bisectors by more than the
+            // angle between them) the vertex of the snapped generators can be anywhere.
             return 0.;
         }
         let snap_error =
